@@ -2,14 +2,15 @@ import TexSoupModel.Args
 /-!
 # Specification for C18: a Python `list` of argument groups
 
-Written independently of the model's methods: the state is a bare `List Expr`, indices are
-normalised by hand, insertion/deletion are `take`/`drop`, `remove` is a three-line recursion.
-There is no shadow list here. The only things shared with the model are the vocabulary
-(`ArgIn`, `ArgsOp`, `ArgItem`), textual equality (`ser`, which *is* `TexExpr.__eq__`) and the
-classifier `isArgObj` ("is a `TexGroup` or `TexCmd`").
+Written independently of the model's methods: the state is a bare list of objects (plus the
+allocation counter that gives identities to the groups made from unparsed strings), indices
+are normalised by hand, insertion/deletion are `take`/`drop`, `remove` is a three-line
+recursion. There is no shadow list here. The only things shared with the model are the
+vocabulary (`Obj`, `ArgIn`, `ArgsOp`, `ArgItem`), textual equality (`ser`, which *is*
+`TexExpr.__eq__`) and the classifier `isArgObj` ("is a `TexGroup` or `TexCmd`").
 
 Conventions that make a list of groups out of a plain list (from the property):
-* an unparsed string `'{..}'`/`'[..]'` denotes the brace/bracket group around its inside,
+* an unparsed string `'{..}'`/`'[..]'` denotes a *new* brace/bracket group around its inside,
   any other non-blank string is a `TypeError` and changes nothing;
 * a value that is not an argument (a blank string, an object that is neither group nor
   command) is accepted and simply not stored; removing it is `list.remove` of something
@@ -20,13 +21,16 @@ namespace ArgsSpec
 
 inductive SpecOut where
   | none
-  | item (e : Expr)
-  | slice (l : List Expr)
+  | item (o : Obj)
+  | slice (l : List Obj)
   | string (s : Str)
   | typeError
   | valueError
   | indexError
   deriving Repr, Inhabited
+
+/-- State of the specification: the list and the allocation counter. -/
+abbrev SpecSt := List Obj × Nat
 
 /-- `'[..]'` / `'{..}'` as a group around the inside; anything else is malformed. -/
 def specGroup : Str → Option Expr
@@ -36,30 +40,34 @@ def specGroup : Str → Option Expr
     if t.getLast? = some 125 then some (.group .brace [.text t.dropLast (-1)] (-1)) else none
   | _ => none
 
-def specStr (s : Str) : Option ArgItem :=
-  if isBlank s then some (.ws s) else (specGroup s).map .grp
+def specStr (next : Nat) (s : Str) : Option (ArgItem × Nat) :=
+  if isBlank s then some (.ws s, next)
+  else match specGroup s with
+    | some e => some (.grp ⟨.made next, e⟩, next + 1)
+    | none => none
 
-/-- The value an input denotes; `none` is `TypeError`. A `TexText` object is a `str`. -/
-def specVal : ArgIn → Option ArgItem
-  | .str s => specStr s
-  | .grp (.text s _) => specStr s
-  | .grp e => some (.grp e)
+/-- The value an input denotes and the counter afterwards; `none` is `TypeError`. A
+`TexText` object is a `str`. -/
+def specVal (next : Nat) : ArgIn → Option (ArgItem × Nat)
+  | .str s => specStr next s
+  | .grp ⟨_, .text s _⟩ => specStr next s
+  | .grp o => some (.grp o, next)
 
 /-- The list entry a value contributes, if it is an argument. -/
-def specListed : ArgItem → Option Expr
-  | .grp e => if isArgObj e then some e else none
+def specListed : ArgItem → Option Obj
+  | .grp o => if isArgObj o.e then some o else none
   | .ws _ => none
 
-/-- `l.insert(i, e)`. -/
-def specInsert (l : List Expr) (i : Int) (e : Expr) : List Expr :=
+/-- `l.insert(i, o)`. -/
+def specInsert (l : List Obj) (i : Int) (o : Obj) : List Obj :=
   let k : Nat := if i < 0 then ((l.length : Int) + i).toNat else min i.toNat l.length
-  l.take k ++ e :: l.drop k
+  l.take k ++ o :: l.drop k
 
 /-- `l.remove(x)` for an `x` printing as `t`: drop the first item printing as `t`
 (`none` is `ValueError`). -/
-def specRemove (t : Str) : List Expr → Option (List Expr)
+def specRemove (t : Str) : List Obj → Option (List Obj)
   | [] => none
-  | a :: r => if ser a = t then some r else (specRemove t r).map (a :: ·)
+  | a :: r => if ser a.e = t then some r else (specRemove t r).map (a :: ·)
 
 /-- Index of `l[i]`/`l.pop(i)` for a list of length `n`; `none` is `IndexError`. -/
 def specIdx (n : Nat) (i : Int) : Option Nat :=
@@ -71,82 +79,84 @@ def specBound (n : Nat) (b : Int) : Nat :=
   if b < 0 then (b + n).toNat else min b.toNat n
 
 /-- `l[lo:hi]`. -/
-def specSlice (l : List Expr) (lo hi : Option Int) : List Expr :=
+def specSlice (l : List Obj) (lo hi : Option Int) : List Obj :=
   let a := (lo.map (specBound l.length)).getD 0
   let b := (hi.map (specBound l.length)).getD l.length
   (l.drop a).take (b - a)
 
 /-- Insert a value at index `i` if it is an argument. -/
-def specInsertVal (l : List Expr) (i : Int) (a : ArgIn) : List Expr × SpecOut :=
-  match specVal a with
-  | none => (l, .typeError)
-  | some it =>
+def specInsertVal (s : SpecSt) (i : Int) (a : ArgIn) : SpecSt × SpecOut :=
+  match specVal s.2 a with
+  | none => (s, .typeError)
+  | some (it, next') =>
     match specListed it with
-    | some e => (specInsert l i e, .none)
-    | none => (l, .none)
+    | some o => ((specInsert s.1 i o, next'), .none)
+    | none => ((s.1, next'), .none)
 
 /-- `for a in as: l.append(a)` – an exception ends the loop. -/
-def specExtend (l : List Expr) : List ArgIn → List Expr × SpecOut
-  | [] => (l, .none)
+def specExtend (s : SpecSt) : List ArgIn → SpecSt × SpecOut
+  | [] => (s, .none)
   | a :: r =>
-    match specInsertVal l l.length a with
-    | (l', .none) => specExtend l' r
-    | (l', out) => (l', out)
+    match specInsertVal s s.1.length a with
+    | (s', .none) => specExtend s' r
+    | (s', out) => (s', out)
 
-def specStep (l : List Expr) : ArgsOp → List Expr × SpecOut
-  | .append a => specInsertVal l l.length a
-  | .extend as => specExtend l as
-  | .insert i a => specInsertVal l i a
+def specStep (s : SpecSt) : ArgsOp → SpecSt × SpecOut
+  | .append a => specInsertVal s s.1.length a
+  | .extend as => specExtend s as
+  | .insert i a => specInsertVal s i a
   | .remove a =>
-    match specVal a with
-    | none => (l, .typeError)
-    | some it =>
-      match specRemove it.txt l with
-      | none => (l, .valueError)
-      | some l' => (l', .none)
+    match specVal s.2 a with
+    | none => (s, .typeError)
+    | some (it, next') =>
+      match specRemove it.txt s.1 with
+      | none => ((s.1, next'), .valueError)
+      | some l' => ((l', next'), .none)
   | .pop i =>
-    match specIdx l.length i with
-    | none => (l, .indexError)
+    match specIdx s.1.length i with
+    | none => (s, .indexError)
     | some k =>
-      match l[k]? with
-      | none => (l, .indexError)
-      | some e => (l.take k ++ l.drop (k + 1), .item e)
-  | .reverse => (l.reverse, .none)
-  | .clear => ([], .none)
+      match s.1[k]? with
+      | none => (s, .indexError)
+      | some o => ((s.1.take k ++ s.1.drop (k + 1), s.2), .item o)
+  | .reverse => ((s.1.reverse, s.2), .none)
+  | .clear => (([], s.2), .none)
   | .getItem i =>
-    match specIdx l.length i with
-    | none => (l, .indexError)
+    match specIdx s.1.length i with
+    | none => (s, .indexError)
     | some k =>
-      match l[k]? with
-      | none => (l, .indexError)
-      | some e => (l, .item e)
-  | .slice lo hi => (l, .slice (specSlice l lo hi))
-  | .str => (l, .string (l.map ser).flatten)
+      match s.1[k]? with
+      | none => (s, .indexError)
+      | some o => (s, .item o)
+  | .slice lo hi => (s, .slice (specSlice s.1 lo hi))
+  | .str => (s, .string (s.1.map fun o => ser o.e).flatten)
 
-def specRun (l : List Expr) : List ArgsOp → List Expr × List SpecOut
-  | [] => (l, [])
+def specRun (s : SpecSt) : List ArgsOp → SpecSt × List SpecOut
+  | [] => (s, [])
   | op :: ops =>
-    let r := specStep l op
+    let r := specStep s op
     let rs := specRun r.1 ops
     (rs.1, r.2 :: rs.2)
 
 /-! ## Abstraction, invariant, output relation -/
 
 /-- Abstraction function: forget `.all`. -/
-def abs (st : ArgsSt) : List Expr := st.lst
+def abs (st : ArgsSt) : SpecSt := (st.lst, st.next)
 
-/-- The invariant of reachable states: the list holds only group/command objects, and for
-every text the list holds at most as many items printing as that text as `.all` does
-(every list item has its own textual twin in `.all`; order is *not* related). -/
+/-- The invariant of reachable states: the list holds only group/command objects, and
+`.all` contains every list element *as an object*: for every identity, the list holds that
+object at most as often as `.all` does (an object may be in the list several times; order is
+*not* related). Nothing is said about texts – which is what makes the book-keeping immune
+to later edits of an argument's contents. -/
 structure Inv (st : ArgsSt) : Prop where
-  args : ∀ e ∈ st.lst, isArgObj e = true
-  twins : ∀ t : Str, (st.lst.map ser).count t ≤ (st.all.map ArgItem.txt).count t
+  args : ∀ o ∈ st.lst, isArgObj o.e = true
+  objs : ∀ id : Oid, st.lst.countP (fun o => o.id == id) ≤ st.all.countP (ArgItem.isObj id)
 
 /-- How an output of the class relates to the output of the list, given a relation for
 returned items. A returned slice must be the sliced list and a well-formed `TexArgs`. -/
-def OutRel (itemRel : ArgItem → Expr → Prop) : ArgsOut → SpecOut → Prop
+def OutRel (itemRel : ArgItem → Obj → Prop) : ArgsOut → SpecOut → Prop
   | .none, .none => True
-  | .item it, .item e => itemRel it e
+  | .item it, .item o => itemRel it o
   | .sliceResult st, .slice l => st.lst = l ∧ Inv st
   | .string s, .string s' => s = s'
   | .typeError, .typeError => True
@@ -155,15 +165,15 @@ def OutRel (itemRel : ArgItem → Expr → Prop) : ArgsOut → SpecOut → Prop
   | _, _ => False
 
 /-- Output lists related pointwise. -/
-def OutsRel (itemRel : ArgItem → Expr → Prop) : List ArgsOut → List SpecOut → Prop
+def OutsRel (itemRel : ArgItem → Obj → Prop) : List ArgsOut → List SpecOut → Prop
   | [], [] => True
   | o :: os, s :: ss => OutRel itemRel o s ∧ OutsRel itemRel os ss
   | _, _ => False
 
 /-- Returned item and list item print the same (`==` in Python). -/
-def SameText (it : ArgItem) (e : Expr) : Prop := it.txt = ser e
-/-- Returned item *is* the list item. -/
-def SameObj (it : ArgItem) (e : Expr) : Prop := it = .grp e
+def SameText (it : ArgItem) (o : Obj) : Prop := it.txt = ser o.e
+/-- Returned item *is* the list item (identity and value). -/
+def SameObj (it : ArgItem) (o : Obj) : Prop := it = .grp o
 
 def isError : ArgsOut → Bool
   | .typeError | .valueError | .indexError => true
@@ -180,7 +190,7 @@ def Plain (e : Expr) : Prop := ∃ k s, e = .group k [.text s (-1)] (-1)
 
 def PlainIn : ArgIn → Prop
   | .str _ => True
-  | .grp e => Plain e
+  | .grp o => Plain o.e
 
 def PlainOp : ArgsOp → Prop
   | .append a | .insert _ a | .remove a => PlainIn a
@@ -188,12 +198,12 @@ def PlainOp : ArgsOp → Prop
   | _ => True
 
 def PlainItem : ArgItem → Prop
-  | .grp e => Plain e
+  | .grp o => Plain o.e
   | .ws s => isBlank s = true
 
 /-- Every stored object is a plain group and every stored string is blank. -/
 structure PlainSt (st : ArgsSt) : Prop where
-  lst : ∀ e ∈ st.lst, Plain e
+  lst : ∀ o ∈ st.lst, Plain o.e
   all : ∀ it ∈ st.all, PlainItem it
 
 end ArgsSpec
